@@ -585,6 +585,152 @@ def normalise_properties(trees):
     return unsupported
 
 
+def inline_predicate_methods(trees):
+    """def has_x(self): return <pure test of self>   called as   obj.has_x()   ->   the test itself, written on obj
+    (methods without parameters whose body is one `return` of a comparison / boolean combination / hasattr / isinstance /
+    `not`, defined once in the package, only ever called - never passed around - on a name or attribute chain)."""
+    defs = {}
+    for tree in trees.values():
+        for cls in [n for n in ast.walk(tree) if isinstance(n, ast.ClassDef)]:
+            for m in cls.body:
+                if isinstance(m, ast.FunctionDef):
+                    defs.setdefault(m.name, []).append((cls, m))
+        for n in tree.body:
+            if isinstance(n, ast.FunctionDef):
+                defs.setdefault(n.name, []).append((None, n))
+    cand = {}
+    for name, ds in defs.items():
+        if len(ds) != 1 or ds[0][0] is None or name.startswith('__'):
+            continue
+        cls, m = ds[0]
+        if m.decorator_list or len(m.args.args) != 1 or m.args.vararg or m.args.kwarg or m.args.kwonlyargs:
+            continue
+        body = [b for b in m.body if not (isinstance(b, ast.Expr) and isinstance(b.value, ast.Constant))]
+        if len(body) != 1 or not isinstance(body[0], ast.Return) or body[0].value is None:
+            continue
+        e = body[0].value
+        pred = isinstance(e, (ast.Compare, ast.BoolOp)) or (isinstance(e, ast.UnaryOp) and isinstance(e.op, ast.Not)) \
+            or (isinstance(e, ast.Call) and isinstance(e.func, ast.Name) and e.func.id in ('hasattr', 'isinstance', 'bool'))
+        if not pred:
+            continue
+        sname = m.args.args[0].arg
+        ok = True
+        for x in ast.walk(e):
+            if isinstance(x, ast.Name) and x.id != sname and x.id not in _PURE_BUILTINS and not x.id[:1].isupper() and x.id not in ('None', 'True', 'False'):
+                ok = False
+            if isinstance(x, ast.Call) and not (isinstance(x.func, ast.Name) and x.func.id in _PURE_BUILTINS):
+                ok = False
+            if isinstance(x, (ast.NamedExpr, ast.Lambda, ast.ListComp, ast.GeneratorExp, ast.SetComp, ast.DictComp)):
+                ok = False
+        if ok:
+            cand[name] = (cls, m, e, sname)
+    if not cand:
+        return
+    simple = lambda x: isinstance(x, ast.Name) or (isinstance(x, ast.Attribute) and simple(x.value))
+    # every occurrence of .name must be the callee of a call without arguments on a simple receiver
+    uses_ok = {n_: True for n_ in cand}
+    for tree in trees.values():
+        callee_ids = set()
+        for n in ast.walk(tree):
+            if isinstance(n, ast.Call) and isinstance(n.func, ast.Attribute) and n.func.attr in cand:
+                callee_ids.add(id(n.func))
+                if n.args or n.keywords or not simple(n.func.value):
+                    uses_ok[n.func.attr] = False
+        for n in ast.walk(tree):
+            if isinstance(n, ast.Attribute) and n.attr in cand and id(n) not in callee_ids:
+                uses_ok[n.attr] = False
+            if isinstance(n, ast.Constant) and isinstance(n.value, str) and n.value in cand:
+                uses_ok[n.value] = False                      # getattr(x, 'name') and the like
+    cand = {n_: v for n_, v in cand.items() if uses_ok[n_]}
+    if not cand:
+        return
+
+    class Inl(ast.NodeTransformer):
+        def visit_Call(self, n):
+            self.generic_visit(n)
+            if isinstance(n.func, ast.Attribute) and n.func.attr in cand and not n.args and not n.keywords:
+                cls, m, e, sname = cand[n.func.attr]
+                new = _subst_self(e, sname, n.func.value)
+                for y in ast.walk(new):
+                    ast.copy_location(y, n)
+                return new
+            return n
+    for tree in trees.values():
+        Inl().visit(tree)
+        ast.fix_missing_locations(tree)
+    for n_, (cls, m, e, sname) in cand.items():
+        if m in cls.body:
+            cls.body.remove(m)
+            if not cls.body:
+                cls.body.append(ast.Pass())
+
+
+def normalise_module_qualified_names(trees):
+    """from . import helpers; helpers.f(x); helpers.LIMIT   ->   f(x); LIMIT   for modules of the package imported as a name,
+    when f / LIMIT is defined at the top level of that module, that name is unique among the package's module-level names and
+    the importing module does not define it itself.  (The rules resolve plain names across the package.)"""
+    top = {}              # relpath -> set of top-level names
+    owners = {}           # name -> [relpath]
+    for rel, tree in trees.items():
+        names = set()
+        for n in tree.body:
+            if isinstance(n, (ast.FunctionDef, ast.ClassDef)):
+                names.add(n.name)
+            elif isinstance(n, ast.Assign):
+                names |= {t.id for t in n.targets if isinstance(t, ast.Name)}
+        top[rel] = names
+        for nm in names:
+            owners.setdefault(nm, []).append(rel)
+    by_base = {}
+    for rel in trees:
+        by_base.setdefault(os.path.basename(rel)[:-3], []).append(rel)
+    for rel, tree in trees.items():
+        alias = {}
+        for n in tree.body:
+            if isinstance(n, ast.ImportFrom):
+                for a in n.names:
+                    cand = by_base.get(a.name, [])
+                    if len(cand) == 1 and a.name not in top.get(rel, ()):           # `from . import orderings`
+                        # only when the imported name is a module, not a name defined by the package named in the import
+                        src_is_pkg = n.module is None or not any(r_.endswith((n.module or '').replace('.', os.sep) + '.py') and a.name in top[r_] for r_ in trees)
+                        if src_is_pkg:
+                            alias[a.asname or a.name] = cand[0]
+            elif isinstance(n, ast.Import):
+                for a in n.names:
+                    base = a.name.split('.')[-1]
+                    cand = [r_ for r_ in by_base.get(base, []) if r_[:-3].replace(os.sep, '.').endswith(a.name)]
+                    if len(cand) == 1 and a.asname:
+                        alias[a.asname] = cand[0]
+        if not alias:
+            continue
+        local_names = {x.id for x in ast.walk(tree) if isinstance(x, ast.Name) and isinstance(x.ctx, ast.Store)} | {a.arg for f in ast.walk(tree) if isinstance(f, ast.FunctionDef) for a in f.args.args}
+
+        class T(ast.NodeTransformer):
+            def visit_Attribute(self, n):
+                self.generic_visit(n)
+                if isinstance(n.ctx, ast.Load) and isinstance(n.value, ast.Name) and n.value.id in alias and n.value.id not in local_names:
+                    src = alias[n.value.id]
+                    if n.attr in top[src] and owners.get(n.attr) == [src] and n.attr not in local_names:
+                        used.add((src, n.attr))
+                        return ast.copy_location(ast.Name(id=n.attr, ctx=ast.Load()), n)
+                return n
+        used = set()
+        T().visit(tree)
+        for src, nm in sorted(used):
+            imp = ast.ImportFrom(module=src[:-3].replace(os.sep, '.'), names=[ast.alias(name=nm, asname=None)], level=0)
+            imp.lineno, imp.col_offset, imp.end_lineno, imp.end_col_offset = 1, 0, 1, 0
+            tree.body.insert(0, imp)                       # the plain name is bound, as if imported by name
+        ast.fix_missing_locations(tree)
+
+
+def _index_function_defs(trees):
+    _FUNCTION_DEFS.clear()
+    for tree in trees.values():
+        for n in ast.walk(tree):
+            if isinstance(n, ast.FunctionDef):
+                _FUNCTION_DEFS.setdefault(n.name, []).append(n)
+
+
 def normalise_optional_attributes(trees):
     """`self.a = None` in __init__ + `x.a is (not) None` tests  ->  no initial store + `(not) hasattr(x, 'a')`: the optional
     attribute idiom the repository itself uses (and the rules know).  Only when every other store to .a assigns something
@@ -605,6 +751,8 @@ def normalise_optional_attributes(trees):
         return
     bad = set()
     tests = {}
+    stored_elsewhere = set()
+    _index_function_defs(trees)
     for tree in trees.values():
         parents = {}
         for x in ast.walk(tree):
@@ -636,6 +784,8 @@ def normalise_optional_attributes(trees):
                     fn_ = parents.get(fn_)
                 if v is None or not _never_none(v, fn_):
                     bad.add(a)
+                else:
+                    stored_elsewhere.add(a)
             else:
                 if isinstance(par, ast.Compare) and par.left is x and len(par.ops) == 1 and isinstance(par.ops[0], (ast.Is, ast.IsNot, ast.Eq, ast.NotEq)) \
                         and isinstance(par.comparators[0], ast.Constant) and par.comparators[0].value is None:
@@ -646,7 +796,9 @@ def normalise_optional_attributes(trees):
                     bad.add(a)
                 elif isinstance(par, ast.Compare) and any(isinstance(c, ast.Constant) and c.value is None for c in [par.left] + par.comparators):
                     bad.add(a)
-    todo = {a for a in cands if a not in bad and tests.get(a)}
+    # an attribute that is only ever initialised to None and later assigned for real (never tested): the initial None is a
+    # place-holder for "not set yet" as well - dropped, so that the attribute has one defining store
+    todo = {a for a in cands if a not in bad and (tests.get(a) or a in stored_elsewhere)}
     if not todo:
         return
 
@@ -938,6 +1090,32 @@ def canonical_attribute_names(trees, ref):
     return mapping
 
 
+_FUNCTION_DEFS = {}
+
+
+def _always_returns_value(fn):
+    """every path of the function ends in `return <something that is not the literal None>` (syntactic: last statement is such a
+    return, or an if/else whose branches all are; no bare return anywhere)"""
+    for n in ast.walk(fn):
+        if isinstance(n, ast.Return) and (n.value is None or (isinstance(n.value, ast.Constant) and n.value.value is None)):
+            return False
+
+    def ends(block):
+        if not block:
+            return False
+        last = block[-1]
+        if isinstance(last, ast.Return):
+            return True
+        if isinstance(last, ast.Raise):
+            return True
+        if isinstance(last, ast.If):
+            return ends(last.body) and ends(last.orelse)
+        if isinstance(last, (ast.With, ast.Try)):
+            return ends(last.body)
+        return False
+    return ends(fn.body)
+
+
 def _never_none(v, fn):
     """is the expression certainly not None?  (literals, arithmetic, conversions, parameters that have no None default
     and are not re-bound)"""
@@ -945,8 +1123,21 @@ def _never_none(v, fn):
         return v.value is not None
     if isinstance(v, (ast.BinOp, ast.JoinedStr, ast.List, ast.Tuple, ast.Dict, ast.Set, ast.ListComp, ast.Compare)):
         return True
-    if isinstance(v, ast.Call) and isinstance(v.func, ast.Name) and v.func.id in ('int', 'len', 'float', 'str', 'abs', 'round', 'max', 'min', 'sum', 'bool', 'list', 'tuple'):
+    if isinstance(v, ast.Call) and isinstance(v.func, ast.Name) and v.func.id in ('int', 'len', 'float', 'str', 'abs', 'round', 'max', 'min', 'sum', 'bool', 'list', 'tuple', 'dict', 'set', 'sorted'):
         return True
+    if isinstance(v, ast.Call):
+        nm = v.func.attr if isinstance(v.func, ast.Attribute) else (v.func.id if isinstance(v.func, ast.Name) else '')
+        if nm in ('get', 'pop', 'setdefault', 'match', 'search', 'fullmatch', 'getattr', 'next', 'popitem') or not nm:
+            return False
+        if nm[:1].isupper():
+            return True                       # a constructor
+        defs = _FUNCTION_DEFS.get(nm)
+        if defs is None:
+            # not defined in the package: a library call (datetime.now(), LpVariable.dicts(...)); the few that answer None are listed above
+            return isinstance(v.func, ast.Attribute)
+        return all(_always_returns_value(d) for d in defs)
+    if isinstance(v, ast.IfExp):
+        return _never_none(v.body, fn) and _never_none(v.orelse, fn)
     if isinstance(v, ast.Name) and isinstance(fn, ast.FunctionDef):
         a = fn.args
         pos = a.posonlyargs + a.args
@@ -1062,11 +1253,13 @@ class Repo:
                 self.sources[rel] = src
                 self.modname[rel] = rel[:-3].replace(os.sep, '.')
         try:
+            normalise_module_qualified_names(self.trees)
             synthesise_dataclass_init(self.trees)
             from .spec import ATTR_ORDER
             self.renamed_attributes = canonical_attribute_names(self.trees, ATTR_ORDER)
             normalise_namedtuple_classes(self.trees)
             self.unsupported_properties = normalise_properties(self.trees)
+            inline_predicate_methods(self.trees)
             normalise_optional_attributes(self.trees)
             normalise_keyword_calls(self.trees)
             normalise_match(self.trees)
